@@ -24,6 +24,38 @@ theorem pt_pt_zero_iff (p q : Vec) (h : p.length = q.length) :
 
 example : ptPtSq [0, 0, 1] [3, 4, 1] = 25 := by decide +kernel
 
+/-- `point_pointset(…, exponent=1)` (the 1-norm): symmetric, non-negative, zero exactly for equal points -/
+theorem pt_pt1_metric (p q : Vec) (h : p.length = q.length) :
+    ptPt1 p q = ptPt1 q p ∧ 0 ≤ ptPt1 p q ∧ (ptPt1 p q = 0 ↔ p = q) :=
+  ⟨ptPt1_symm p q, norm1_nonneg _, ptPt1_zero p q h⟩
+
+example : ptPt1 [0, 0] [3, -4] = 7 := by decide +kernel
+
+/-- `pointset(p, max_diag)`: off the diagonal the entry is the (symmetric) squared distance of the two points; the
+    diagonal is 0, or with `max_diag` it is `(2·max_j |p_i - p_j|)²`: four times the largest squared distance of
+    the row, which is attained by a point of the set and dominates every entry of the row -/
+theorem pointset_entry (maxDiag : Bool) (ps : List Vec) (pi pj : Vec × Nat) :
+    (pi.2 ≠ pj.2 → pointSetEntry maxDiag ps pi pj = ptPtSq pi.1 pj.1 ∧
+      pointSetEntry maxDiag ps pi pj = pointSetEntry maxDiag ps pj pi) ∧
+    (pointSetEntry false ps pi pi = 0) ∧
+    (∀ q ∈ ps, ptPtSq pi.1 q ≤ pointSetEntry true ps pi pi) ∧
+    (ps ≠ [] → ∃ q ∈ ps, pointSetEntry true ps pi pi = 4 * ptPtSq pi.1 q) := by
+  refine ⟨fun hne => ?_, by simp [pointSetEntry], fun q hq => ?_, fun hne => ?_⟩
+  · unfold pointSetEntry
+    rw [if_neg hne, if_neg (Ne.symm hne)]
+    exact ⟨rfl, pt_pt_symm _ _⟩
+  · simp only [pointSetEntry, if_true]
+    have h1 := le_maxList (ps.map (ptPtSq pi.1)) _ (List.mem_map.mpr ⟨q, hq, rfl⟩)
+    have h2 := maxList_nonneg (ps.map (ptPtSq pi.1))
+    linarith
+  · simp only [pointSetEntry, if_true]
+    have hm := maxList_mem (ps.map (ptPtSq pi.1)) (by simpa using hne)
+      (fun x hx => by obtain ⟨q, _, rfl⟩ := List.mem_map.mp hx; exact nsq_nonneg _)
+    obtain ⟨q, hq, he⟩ := List.mem_map.mp hm
+    exact ⟨q, hq, by rw [he]⟩
+
+example : pointSet true [[0, 0], [3, 4], [0, 1]] = [[100, 25, 1], [25, 100, 18], [1, 18, 72]] := by decide +kernel
+
 /-! ### point – segment -/
 
 /-- the returned parameter lies in `[0,1]`, the returned closest point is the point of the segment
@@ -382,6 +414,79 @@ theorem seg_poly_minimal_convex (poly : List Vec) (C : ConvexPoly poly) (tolP to
     (mu : Rat) (mu0 : 0 ≤ mu) (mu1 : mu ≤ 1) (x : Vec) (hx : InRegion poly x) :
     (segPoly tolP tolS s e poly).d2 ≤ nsq (vsub (along s e mu) x) :=
   segPoly_min_convex poly C tolP tolS htol s e hs he hss hinc mu mu0 mu1 x hx
+
+/-- where the returned "closest point" of `segments_polygon` lies, for a convex planar polygon, branch by branch:
+    * crossing: distance 0, and the point lies on the segment AND in the polygon;
+    * in-plane: distance 0 is returned and the point lies in the polygon, within the tolerance `tol` (start point) or
+      `2·tol` (end point) of an end point of the segment — the only branch where "at that distance" holds up to the
+      tolerance argument only;
+    * general: there are a point `y` of the segment and a point `z` of the polygon at exactly the returned distance, and
+      the returned point is one of the two.
+    With `seg_poly_minimal_convex` this is the property for segment–polygon: true distance, realised at the returned point. -/
+theorem seg_poly_attained_convex (poly : List Vec) (C : ConvexPoly poly) (tolP tolS : Rat) (htol : 0 < tolS) (s e : Vec)
+    (hs : s.length = 3) (he : e.length = 3) :
+    ((segPoly tolP tolS s e poly).branch = 0 → (segPoly tolP tolS s e poly).d2 = 0 ∧
+        InRegion poly (segPoly tolP tolS s e poly).cp ∧ ∃ t : Rat, 0 ≤ t ∧ t ≤ 1 ∧ (segPoly tolP tolS s e poly).cp = along s e t) ∧
+    ((segPoly tolP tolS s e poly).branch = 1 → (segPoly tolP tolS s e poly).d2 = 0 ∧
+        InRegion poly (segPoly tolP tolS s e poly).cp ∧
+        (nsq (vsub s (segPoly tolP tolS s e poly).cp) < tolP * tolP ∨ nsq (vsub e (segPoly tolP tolS s e poly).cp) < 4 * (tolP * tolP))) ∧
+    ((segPoly tolP tolS s e poly).branch = 2 → ∃ y z : Vec, (∃ t : Rat, 0 ≤ t ∧ t ≤ 1 ∧ y = along s e t) ∧ InRegion poly z ∧
+        ((segPoly tolP tolS s e poly).cp = y ∨ (segPoly tolP tolS s e poly).cp = z) ∧
+        (segPoly tolP tolS s e poly).d2 = nsq (vsub y z)) := by
+  have hnn : 0 < nsq (normal poly) := lt_of_le_of_ne (nsq_nonneg _) (Ne.symm C.nn)
+  have hse : s.length = e.length := by rw [hs, he]
+  have hcs : (centroid poly).length = s.length := by rw [C.clen, hs]
+  have accepted : ∀ w : Vec, w.length = 3 →
+      inPoly poly (normal poly) (projPlane (centroid poly) (normal poly) w) = true →
+      InRegion poly (projPlane (centroid poly) (normal poly) w) := by
+    intro w lw hacc
+    have lq : (projPlane (centroid poly) (normal poly) w).length = 3 := by rw [length_projPlane _ _ _ (by rw [C.nlen, lw]), lw]
+    exact (membership_convex poly C _ lq (projPlane_in_plane _ _ _ (by rw [C.clen, lw]) (by rw [C.nlen, lw]) C.nn)).1 hacc
+  refine ⟨fun hb => ?_, fun hb => ?_, fun hb => ?_⟩
+  · -- crossing
+    cases hx : crossPoint tolP s e poly with
+    | none =>
+      rcases segPoly_none tolP tolS s e poly hx with h | h
+      · rw [h] at hb; simp at hb
+      · rw [h, segPolyGeneral_branch] at hb; simp at hb
+    | some x0 =>
+      obtain ⟨t, t0, t1, ex, px, hacc⟩ := crossPoint_some tolP s e poly x0 hse hcs hx
+      rw [segPoly_some tolP tolS s e poly x0 hx]
+      have lx : x0.length = 3 := by rw [ex, length_along _ _ _ hse, hs]
+      have hfix := projPlane_fix (centroid poly) (normal poly) x0 (by rw [C.nlen, lx]) px
+      have := accepted x0 lx hacc
+      rw [hfix] at this
+      exact ⟨rfl, this, t, t0, t1, ex⟩
+  · -- in the plane
+    obtain ⟨h1, h2, h3, h4⟩ := segPoly_branch1 tolP tolS s e poly hb
+    have T : 0 ≤ tolP * tolP := mul_self_nonneg _
+    rcases h3 with ⟨hacc, ecp⟩ | ⟨hacc, ecp⟩
+    · refine ⟨h4, by rw [ecp]; exact accepted s hs hacc, Or.inl ?_⟩
+      rw [ecp, nsq_to_projPlane _ _ _ (by rw [C.nlen, hs]) C.nn, div_lt_iff₀ hnn]
+      exact h1
+    · refine ⟨h4, by rw [ecp]; exact accepted e he hacc, Or.inr ?_⟩
+      rw [ecp, nsq_to_projPlane _ _ _ (by rw [C.nlen, he]) C.nn, div_lt_iff₀ hnn]
+      have h2' := not_lt.mp h2
+      nlinarith [mul_self_nonneg (dot (vsub e (centroid poly)) (normal poly) - 2 * dot (vsub s (centroid poly)) (normal poly))]
+  · -- general
+    have hg : segPoly tolP tolS s e poly = segPolyGeneral tolS s e poly := by
+      cases hx : crossPoint tolP s e poly with
+      | some x0 => rw [segPoly_some tolP tolS s e poly x0 hx] at hb; simp at hb
+      | none =>
+        rcases segPoly_none tolP tolS s e poly hx with h | h
+        · rw [h] at hb; simp at hb
+        · exact h
+    rw [hg]
+    rcases segPolyGeneral_cp tolS s e poly with ⟨c1, c2⟩ | ⟨c1, c2⟩ | ⟨g, hgm, c1, c2⟩
+    · obtain ⟨_, m2, m3⟩ := pt_polygon_minimal_convex poly C s hs
+      exact ⟨s, (ptPoly s poly).cp, ⟨0, le_refl _, by norm_num, (along_zero s e hse).symm⟩, m2, Or.inr c1, by rw [c2, m3]⟩
+    · obtain ⟨_, m2, m3⟩ := pt_polygon_minimal_convex poly C e he
+      exact ⟨e, (ptPoly e poly).cp, ⟨1, by norm_num, le_refl _, (along_one s e hse).symm⟩, m2, Or.inr c1, by rw [c2, m3]⟩
+    · obtain ⟨la, lb⟩ := C.len3 g hgm
+      obtain ⟨a0, a1, a2, a3, a4, a5, a6⟩ := segSeg_on_segs tolS htol s e g.1 g.2 hse (by rw [hs, la]) (by rw [la, lb])
+      refine ⟨(segSeg tolS s e g.1 g.2).cp1, (segSeg tolS s e g.1 g.2).cp2, ⟨_, a0, a1, a4⟩, ?_, Or.inl c1, by rw [c2]; exact a6⟩
+      rw [a5]
+      exact edge_in_region poly C g hgm _ a2 a3
 
 -- the hypotheses hold e.g. for a segment passing beside the unit square at an incline
 example : (∀ g ∈ edges [[0, 0, 0], [1, 0, 0], [1, 1, 0], [0, 1, 0]],
